@@ -417,4 +417,114 @@ inductive Reachable : St → Prop where
 /-- The lines of goroutine `p` in an owned sequence. -/
 def proj (p : Nat) (xs : List Owned) : List Line := (xs.filter (fun x => x.1 == p)).map (·.2)
 
+/-! ## Checking a recorded run of the real logger against the property
+
+The harness records, per goroutine, the calls it made (grouped per message "item": identical
+consecutive calls from one call site) together with the level configuration in force during each call,
+and the adapter output. `checkRun` decides whether the output is what the property allows. -/
+
+inductive Kind where
+  | plain    -- `Info(msg)` …: subject to the level filter
+  | tracer   -- `tracer.Submit()`: no filter, carries its collected entries
+  | any      -- a call cut off by the end of the run: optional, any form
+  deriving DecidableEq, Repr
+
+/-- Some completed calls of one item. `cfg = none`: the level configuration changed during the call. -/
+structure Seg where
+  cfg : Option Levels
+  before : Bool          -- the call returned before Shutdown was requested
+  n : Nat
+  deriving Repr
+
+structure Item where
+  item : Nat
+  lvl : Nat
+  org : Nat
+  kind : Kind
+  segs : List Seg
+  entries : List Nat     -- tracer: the items of the attached entries
+  deriving Repr
+
+/-- Is a call of this kind emitted under configuration `c`? -/
+def Item.on (e : Item) (c : Levels) : Bool :=
+  match e.kind with
+  | .plain => enabled c (some e.org) e.lvl
+  | .tracer => true
+  | .any => true
+
+/-- Lines that MUST reach the adapter: enabled under a stable configuration, completed before Shutdown. -/
+def Item.lo (e : Item) : Nat :=
+  (e.segs.map fun s =>
+    match s.cfg with
+    | none => 0
+    | some c => if e.kind != .any && s.before && e.on c then s.n else 0).sum
+
+/-- Lines that MAY reach the adapter: everything except calls that were disabled under a stable configuration. -/
+def Item.hi (e : Item) : Nat :=
+  (e.segs.map fun s =>
+    match s.cfg with
+    | none => s.n
+    | some c => if e.on c then s.n else 0).sum
+
+/-- One line of the expanded adapter output attributed to a goroutine. -/
+structure Got where
+  item : Nat
+  entries : Option (List Nat)
+  deriving DecidableEq, Repr
+
+/-- One adapter write as recorded: owner goroutine, item, duplicates, attached entries. -/
+structure OutW where
+  gid : Nat
+  item : Nat
+  dups : Nat
+  entries : Option (List Nat)
+  deriving Repr
+
+def expandOut (gid : Nat) : List OutW → List Got
+  | [] => []
+  | o :: rest =>
+    if o.gid = gid then List.replicate (o.dups + 1) ⟨o.item, o.entries⟩ ++ expandOut gid rest
+    else expandOut gid rest
+
+inductive Verdict where
+  | pass
+  | fail (cls : String) (gid item : Nat)
+  deriving DecidableEq, Repr
+
+/-- Does an output line have the form the item prescribes? -/
+def Item.formOk (e : Item) (g : Got) : Bool :=
+  match e.kind with
+  | .plain => g.entries == none
+  | .tracer => g.entries == some e.entries
+  | .any => true
+
+/-- The leading lines of `got` that belong to `item`. -/
+def takeItem (item : Nat) : List Got → List Got
+  | [] => []
+  | g :: gs => if g.item = item then g :: takeItem item gs else []
+
+/-- Walk one goroutine's expected items (ascending) along its part of the expanded output. -/
+def checkProd (gid : Nat) : List Item → List Got → Verdict
+  | [], [] => .pass
+  | [], g :: _ => .fail "unexpected" gid g.item
+  | e :: es, got =>
+    let blk := takeItem e.item got
+    if ¬ blk.all e.formOk then .fail "trace" gid e.item
+    else if blk.length < e.lo then .fail "lost" gid e.item
+    else if blk.length > e.hi then .fail (if e.hi = 0 then "filtered" else "duplicated") gid e.item
+    else checkProd gid es (got.drop blk.length)
+
+/-- All goroutines `0 … np-1`, in order; first failure wins. -/
+def checkProds (outs : List OutW) (exps : Nat → List Item) : Nat → Nat → Verdict
+  | _, 0 => .pass
+  | gid, n + 1 =>
+    match checkProd gid (exps gid) (expandOut gid outs) with
+    | .pass => checkProds outs exps (gid + 1) n
+    | v => v
+
+def checkRun (np : Nat) (exps : Nat → List Item) (outs : List OutW) : Verdict :=
+  match outs.find? (fun o => o.gid ≥ np) with
+  | some o => .fail "unexpected" o.gid o.item
+  | none => checkProds outs exps 0 np
+
 end PB.Log
